@@ -52,12 +52,12 @@ CLAIMS = {
                   "violation without the user's recovery); JadeImpl with the user's try-submit-jobs at any moment (EagerUser); "
                   "CompleteSummaryHasAll, SummaryOnlyBeforeFlag, NodeRoundAfterBatch; login-node rounds started at every other "
                   "step of base schedules and held at each of their operations; CompletionWorkOnce (one summary per epoch) with a "
-                  "try-submit-jobs started at every step of submissions that end with report generation.", "5-C05"),
+                  "try-submit-jobs started at every step of submissions that end with report generation. Session 2: --no-distributed-submitter in JadeImpl and in random runs; WaitsOnlyForUnfinished; resubmitted submissions.", "5-C05"),
     "C06": _claim("NodesBound against the simulator's ground truth after every sbatch/hpc event and ProcsBound after every "
                   "launch, on JadeImpl and real traces (incl. failing scheduler queries); node-level ProcsBound on NodeQueue.tla "
                   "(all inputs <=3 jobs) and on the real JobQueue along every exit schedule, plus random 5-9-job "
                   "cancellation-heavy batches; rounds aborted by a failed write after an accepted sbatch; resubmit-jobs at the "
-                  "moment of completion; limits judged against the parameters in force (regroup).", "5-C06"),
+                  "moment of completion; limits judged against the parameters in force (regroup). Session 2: ActiveBatchesTracked (a round that ends leaves every batch the scheduler still holds among the recorded ids); squeue answers with unmapped display states.", "5-C06"),
     "C07": _claim("Batching.tla: TLC enumerates every batching input with <=3 jobs (admissible batches, node budget, "
                   "termination, closed form = step-wise run); the same input space is executed on the real submit-jobs and the "
                   "observed batches are validated by TLC against the closed form (BatchTrace.tla); C07 clauses of JadeMonitor on "
@@ -70,7 +70,7 @@ CLAIMS = {
                   "the real ResultsAggregator in virtual processes parked at every lock operation, and random schedules with every "
                   "file operation (result and lock files) as a scheduling point; rows/collected events of whole submissions incl. "
                   "login-node rounds held at each file operation, and of resubmitted submissions (consolidated file rewritten by "
-                  "resubmit-jobs, then appended to).", "5-C08"),
+                  "resubmit-jobs, then appended to). Session 2: ReportedRowsRecorded (rows a collection returned are recorded as completed when the command ends).", "5-C08"),
     "C09": _claim("All status clauses evaluated after every cluster-lock release (and between consecutive statuses) on "
                   "JadeImpl and on real traces.", "5-C09"),
 }
@@ -81,7 +81,7 @@ CLAIMS["C10"] = _claim("ClusterStore.tla: all interleavings of load/promote/demo
                        "schedules executed on the real Cluster class with byte comparison of the files around every operation; "
                        "crash histories (op!k: a process killed between the file writes of one update, its marker broken by the lock "
                        "library for a same-host process) and retry-after-rejection plans; cop events carry the versions of both "
-                       "files; promote/status events of whole submissions.", "5-C10")
+                       "files; promote/status events of whole submissions. Session 2: re-creation of the output directory (submit-jobs --force) with handles of the old incarnation ahead of the new files (k14/k15), time passing before a newcomer's operation (k16), RoleGivenBackAtExit.", "5-C10")
 
 CLAIMS["C11"] = ("fault_enumeration",
                  "Systematic single-fault sweep on the real code: every submitter process of base schedules x every boundary "
@@ -110,7 +110,7 @@ CLAIMS["C13"] = _claim("Resubmit.tla: what resubmit-jobs computes and writes bef
                        "JadeMonitor (RerunExactly, RerunAllFresh, UntouchedPreserved, StartAfterBlockers per epoch, "
                        "RefuseLeavesUnchanged, NoDeadEnd). JadeImpl with resubmit-jobs as a process (both epochs, every interleaving) "
                        "incl. TLC liveness ResubmitEnds (flag cleared ~> complete again). K2 is a listed known finding and an expected "
-                       "TLC counterexample of JadeImpl.", "5-C13")
+                       "TLC counterexample of JadeImpl. Session 2: repeated resubmissions in the 3-job space incl. one that selects nothing; RoleGivenBackAtExit.", "5-C13")
 CLAIMS["C14"] = _claim("cancel-jobs issued at every scheduling step of base schedules and at random moments of random submissions, "
                        "followed by try-submit-jobs/show-status sequences; traces validated by TLC against NoSbatchAfterCancel, "
                        "ActiveBatchesCancelled (simulated scancel with SLURM's return codes), MissingExact, FinishedKeepResults, "
@@ -118,14 +118,14 @@ CLAIMS["C14"] = _claim("cancel-jobs issued at every scheduling step of base sche
                        "replayed; cancel at quiet moments (no batch active, jobs unsubmitted); TLC liveness under FairSpecCancel: "
                        "CancelEnds (a cancellation ~> complete, nothing queued/running/active), CancelMarks, with the vacuity run "
                        "without fairness on the cancel process; a cancel-jobs that is refused for all its attempts gives up (CGiveUp) and "
-                       "never takes the role from a holder.", "5-C14")
+                       "never takes the role from a holder. Session 2: resubmit-jobs among the commands that follow a cancel.", "5-C14")
 CLAIMS["C16"] = _claim("All 16 set/unset combinations of the four lifecycle commands x local/HPC x random DAGs and schedules; the "
                        "commands are served by the controller and recorded with host, batch, environment, rows on disk and live "
                        "job processes; traces validated by TLC against the hook clauses of JadeMonitor; JadeImpl with the four "
                        "commands as actions (Teardown between Summary and MarkComplete, NodeSetup/NodeTeardown around the node's "
                        "queue) explored by TLC and replayed; failing teardown / node teardown commands; multi-group runs; canceled "
                        "completions (cancel-jobs at any moment in the model with the commands as actions, at every step of base "
-                       "schedules on the code).", "5-C16")
+                       "schedules on the code). Session 2: submissions with lifecycle commands resubmitted (some jobs / every job).", "5-C16")
 
 CLAIMS["C15"] = _claim("Traces of real `jade pipeline submit` runs (1-4 stages, local and HPC, nested submit-next-stage commands as "
                        "virtual processes, per-stage recovery) are validated by TLC against PipelineMonitor.tla: stage k+1 is "
@@ -142,14 +142,14 @@ CLAIMS["C17"] = ("exploration",
                  "Abstract configurations over the public job/group models and every single injected invalidity are built with "
                  "the real models, dumped, loaded and submitted (counting sbatch stub); TLC decides with Valid(cfg) of "
                  "ConfigCheck.tla whether each observed verdict (accepted / rejected with which error, sbatch calls before the "
-                 "rejection, loaded projection = original projection) is right; walltimes from 10 minutes to 48 hours.", "5-C17", _FNOTE,
+                 "rejection, loaded projection = original projection) is right; walltimes from 10 minutes to 48 hours. Session 2: files whose job list is permuted or repeats an id; dependencies given through constructor / attribute / setter; the configuration object itself must pass the submitter's checks.", "5-C17", _FNOTE,
                  "TLA+ oracle (ConfigCheck) + TLC validation of observations of the real code")
 CLAIMS["C18"] = ("model_checking",
                  "Slurm.tla: the retry loop as a state machine (TLC: all outcome sequences, retries 0..6); operators for the "
                  "expected #SBATCH directives, the terminal SLURM states and the submit-response classes; all 2^9 optional-field "
                  "combinations, every SLURM state x whitespace rendering, 7 response classes and all retry outcome sequences are "
                  "executed on the real code and validated by TLC; the whole status path also runs against a scheduler that "
-                 "interprets the squeue command line (-u/-j/-n/-t/-h/--Format).", "5-C18", _FNOTE,
+                 "interprets the squeue command line (-u/-j/-n/-t/-h/--Format). Session 2: several tracked batches through one status collector with a failing query (StatusMultiVerdict); ActiveBatchesTracked on whole submissions validated against JadeMonitor.", "5-C18", _FNOTE,
                  "TLA+ model (Slurm) checked by TLC + TLC validation of observations of the real code")
 CLAIMS["C19"] = ("model_checking",
                  "Launch.tla: POSIX word splitting as a recursive operator, enumerated by TLC over all strings <=5 of a 9-symbol "
@@ -163,7 +163,7 @@ CLAIMS["C20"] = ("model_checking",
                  "event multisets over several files are consolidated twice with the real EventsSummary (lists per name; for resource-"
                  "statistics events the per-name tables, one row per monitored process, read back with get_dataframe), and TLC validates the "
                  "observations; results.json tallies are validated on whole submissions (TallyPartition) and the consolidated "
-                 "event summary against the event logs after a resubmission (reports on, periodic monitoring).", "5-C20", _FNOTE,
+                 "event summary against the event logs after a resubmission (reports on, periodic monitoring). Session 2: simulated jobs log structured events of their own through a handle kept open; ground truth = what they wrote.", "5-C20", _FNOTE,
                  "TLA+ model (Reports) checked by TLC + TLC validation of observations of the real code")
 
 NOT_YET = "check not built yet in this round (the specification and harness are being extended property by property)"
